@@ -355,3 +355,68 @@ func Verif_C13_FailedNumericUpdateChangesNothing() {
 	}
 	vr.Reach("end")
 }
+
+// Verif_C13_ReadersOfLargerCollections: the read-only commands that pick, slice or enumerate - the ones
+// that work on a private copy of the members and are tempted to reuse or shuffle it - on collections
+// of exactly three elements (the whole-module harnesses hold one or two): afterwards the stored value
+// is what it was, as seen by lookups *and* by enumeration, and a second enumerating command returns
+// every element.
+func Verif_C13_ReadersOfLargerCollections() {
+	gConcreteScores = true
+	gNoHistory = true
+	s := verifServer()
+	k := vr.Tok("k")
+	var pre gVal
+	var argv []string
+	n := strconv.Itoa([]int{1, 2, -2, 3, 5, 0}[vr.Choose("count", 6)])
+	switch vr.Choose("family", 4) {
+	case 0:
+		pre = gSym("z", gZSet, 1)
+		for len(pre.elems) < 3 {
+			e := vr.Tok("z_x" + strconv.Itoa(len(pre.elems)))
+			for _, o := range pre.elems {
+				vr.Assume(o != e)
+			}
+			pre.elems = append(pre.elems, e)
+			pre.scores = append(pre.scores, float64(len(pre.elems)))
+		}
+		argv = [][]string{{"ZRANDMEMBER", k, n}, {"ZRANDMEMBER", k, n, "WITHSCORES"}, {"ZRANGE", k, "-inf", "+inf", "BYSCORE", "LIMIT", "1", n},
+			{"ZRANGE", k, "+inf", "-inf", "BYSCORE", "REV"}, {"ZRANK", k, pre.elems[1]}, {"ZREVRANK", k, pre.elems[0], "WITHSCORE"}, {"ZCOUNT", k, "2", "3"},
+			{"ZLEXCOUNT", k, "-", "+"}, {"ZMSCORE", k, pre.elems[2], pre.elems[0]}, {"ZUNION", k, k, "WITHSCORES"}, {"ZINTER", k}, {"ZDIFF", k, "nokey"}}[vr.Choose("reader", 12)]
+	case 1:
+		pre = gVal{kind: gSet}
+		for len(pre.elems) < 3 {
+			e := vr.Tok("s_x" + strconv.Itoa(len(pre.elems)))
+			for _, o := range pre.elems {
+				vr.Assume(o != e)
+			}
+			pre.elems = append(pre.elems, e)
+		}
+		argv = [][]string{{"SRANDMEMBER", k, n}, {"SRANDMEMBER", k}, {"SMEMBERS", k}, {"SMISMEMBER", k, pre.elems[1], "zz"}, {"SINTERCARD", k, k, "LIMIT", "2"},
+			{"SUNION", k, k}, {"SDIFF", k, "nokey"}, {"SINTER", k}}[vr.Choose("reader", 8)]
+	case 2:
+		pre = gVal{kind: gHash, elems: []string{"f1", "f2", "f3"}, vals: []string{vr.Tok("h_v0"), vr.Tok("h_v1"), vr.Tok("h_v2")}}
+		argv = [][]string{{"HRANDFIELD", k, n}, {"HRANDFIELD", k, n, "WITHVALUES"}, {"HRANDFIELD", k}, {"HKEYS", k}, {"HVALS", k}, {"HGETALL", k}, {"HMGET", k, "f2", "zz"}}[vr.Choose("reader", 7)]
+	case 3:
+		pre = gVal{kind: gList, elems: []string{vr.Tok("l_0"), vr.Tok("l_1"), vr.Tok("l_2")}}
+		argv = [][]string{{"LRANGE", k, "0", "-1"}, {"LRANGE", k, "1", n}, {"LINDEX", k, n}, {"LLEN", k}}[vr.Choose("reader", 4)]
+	}
+	gStoreIn(s, 0, k, pre)
+	_, _, panicked := verifRun(s, argv...)
+	vr.Assert(!panicked, "C13.larger.nopanic")
+	if panicked {
+		return
+	}
+	vr.Assert(gHolds(s, k, pre) && len(s.store[0]) == 1, "C13.larger.readonly_is_pure")
+	// a second reader after the first sees everything
+	switch pre.kind {
+	case gZSet:
+		reply, err, p2 := verifRun(s, "ZRANGE", k, "-inf", "+inf", "BYSCORE")
+		r := vr.Decode(reply)
+		vr.Assert(!p2 && err == nil && r.OK && len(r.Elems) == 3, "C13.larger.later_reader_sees_every_member")
+	case gSet:
+		reply, err, p2 := verifRun(s, "SCARD", k)
+		vr.Assert(!p2 && err == nil && isIntReply(reply, 3), "C13.larger.later_reader_sees_every_member")
+	}
+	vr.Reach("end")
+}
